@@ -17,6 +17,7 @@ def parsePStep : Sx → Option PStep
   | .list [.atom "S", j] => (asNat j).map .start
   | .list [.atom "F", j] => (asNat j).map .finish
   | .list [.atom "X", j] => (asNat j).map .dec
+  | .list [.atom "W", _] => some .idleGap
   | _ => none
 
 structure PoolCase where
